@@ -247,6 +247,10 @@ class Module:
             self.tree = normalise(ast.parse(self.src, filename=relpath))
         except SyntaxError as e:
             raise AnalysisError(f'{relpath} does not parse: {e}')
+        self.build()
+
+    def build(self):
+        relpath = self.relpath
         self.funcs = {}
         self.classes = {}
         self.consts = {}
@@ -289,9 +293,21 @@ class Module:
         return ''
 
 
+# Private helpers of the analysed tree that the rules anchor on by name or discover by role.  Only consulted for
+# the *inlined equivalent form* (Repo(expand=True)): these are left as they are, every other eligible private
+# helper is inlined into its callers (see inline.py).  A name missing here costs nothing but precision of that
+# second opinion; it can never produce a VIOLATION.
+ANCHORED_PRIVATE = frozenset({
+    '_update_readmetxt', '_append', '_write_txt', '_write_jsonfile', '_write_jsondict', '_view', '_update_len',
+    '_update_jsondict', '_update_arrayinfo', '_update_arraydescr', '_read_arraydescr', '_read', '_open_array',
+    '_fillgenerator', '_delete_files', '_checkarrayforappend', '_check_writeprotected',
+    '_check_arrayinfoconsistency', '_archunkgenerator'})
+
+
 class Repo:
-    def __init__(self, root='/repo'):
+    def __init__(self, root='/repo', expand=False):
         self.root = root
+        self.expanded = []
         pkgdir = os.path.join(root, PKG)
         if not os.path.isdir(pkgdir):
             raise AnalysisError(f'{pkgdir} not found')
@@ -300,6 +316,13 @@ class Repo:
             if fn.endswith('.py') and fn not in EXCLUDE_FILES:
                 m = Module(root, f'{PKG}/{fn}')
                 self.modules[m.name] = m
+        if expand:
+            from .inline import expand as _expand
+            trees = {n: m.tree for n, m in self.modules.items()}
+            self.expanded = _expand(trees, keep=ANCHORED_PRIVATE)
+            for m in self.modules.values():
+                m.tree = normalise(m.tree)
+                m.build()
         self.docs = {}
         for rel in ('docs/readcode.rst', 'docs/design.rst'):
             p = os.path.join(root, rel)
